@@ -146,7 +146,7 @@ def unit(mode):
         ext(Fn("is_negative", props=(tag,), preamble=bu, ensures="match r { Ok(b) => b.bval() == is_neg(self.val()), Err(_) => true }"))
         ext(Fn("abs", props=(tag,), preamble=bu, ensures="match r { Ok(x) => x.val() == fabs(self.val()), Err(_) => true }"))
     else:
-        ext(Fn("isqrt", props=(tag,), preamble=bu + " broadcast use lemma_div_unique;", subst=r9,
+        ext(Fn("isqrt", props=(tag,), preamble=bu + " broadcast use lemma_div_unique, lemma_div_c, lemma_fmul_one;", subst=r9,
                ensures="match r { Ok(p) => p.0.bval() == isqrt_flag(1, self.val()) && p.1.val() == isqrt_root(1, self.val()), Err(_) => false }"))
         ext(Fn("is_nonnegative", props=(tag,), preamble=bu, ensures="match r { Ok(b) => b.bval() == !is_neg(self.val()), Err(_) => false }"))
         ext(Fn("is_negative", props=(tag,), preamble=bu, ensures="match r { Ok(b) => b.bval() == is_neg(self.val()), Err(_) => false }"))
@@ -193,6 +193,22 @@ def unit(mode):
                epilogue="match &r_ { Ok(e) => { assert(ell_affine_rel(r_0_var.val(), gw_, gv_, e.inner.x.val(), e.inner.y.val())); assert(isqrt_weak(ell_x(r_0_var.val()), gw_, gv_)); } Err(_) => {} }",
                ensures=f"""match r {{ Ok(e) => exists|ws: bool, y: int| #[trigger] isqrt_weak(ell_x(r_0_var.val()), ws, y)
                              && ell_affine_rel(r_0_var.val(), ws, y, e.inner.x.val(), e.inner.y.val()), {E_} }}"""))
+    if not sound:
+        S_ = "s_var.val()"
+        inn(Fn("compress_to_field", props=(tag,), preamble=bui,
+               ensures="match r { Ok(s) => s.val() == spec_encode(pv(*self)), Err(_) => false }"))
+        inn(Fn("decompress_from_field", props=(tag,), preamble=bui,
+               requires=f"spec_decode({S_}) is Some",
+               ensures=f"match r {{ Ok(e) => pv(e) == spec_decode({S_})->Some_0, Err(_) => false }}"))
+        inn(Fn("elligator_map", props=(tag,), preamble=bui + " proof { m_ell_den_nonzero(r_0_var.val()); }", rlimit=60,
+               ensures="""match r { Ok(e) => ell_affine_rel(r_0_var.val(), isqrt_flag(1, ell_x(r_0_var.val())), isqrt_root(1, ell_x(r_0_var.val())),
+                                                       e.inner.x.val(), e.inner.y.val()), Err(_) => false }"""))
+        inn(Fn("conditional_enforce_equal", props=(tag,), preamble=bui,
+               requires="should_enforce.bval() ==> spec_eq(pv(*self), pv(*other))", ensures="r is Ok"),
+            hdr="impl EqGadget<Fq> for ElementVar", header_out="impl ElementVar")
+        inn(Fn("conditional_enforce_not_equal", props=(tag,), preamble=bui,
+               requires="should_enforce.bval() ==> !spec_eq(pv(*self), pv(*other))", ensures="r is Ok"),
+            hdr="impl EqGadget<Fq> for ElementVar", header_out="impl ElementVar")
     inn(Fn("is_eq", props=(tag,), preamble=bui, ensures=f"match r {{ Ok(b) => b.bval() == spec_eq(pv(*self), pv(*other)), {E_} }}"),
         hdr="impl EqGadget<Fq> for ElementVar", header_out="impl ElementVar")
     if sound:
@@ -213,11 +229,27 @@ def unit(mode):
 
 
 COMPL_LEMMAS = r"""
+// M-ELL: the denominators 1 + a s^2 and t of the Jacobi-quartic -> Edwards conversion are non-zero
+pub axiom fn m_ell_den_nonzero(r0: int)
+    requires in_fq(r0)
+    ensures ({ let st = ell_st(r0, isqrt_flag(1, ell_x(r0)), isqrt_root(1, ell_x(r0)));
+               fadd(1, fmul(A_(), fsq(st.0))) != 0 && st.1 != 0 });
 // division is unique in a field: x * d == 1 and y * d == 1 ==> x == y   (M-PRIME-free: x = x*(y*d) = (x*d)*y = y)
 pub broadcast proof fn lemma_div_unique(x: int, y: int, d: int)
-    requires in_fq(x), in_fq(y), in_fq(d), #[trigger] fmul(x, d) == 1, #[trigger] fmul(y, d) == 1
+    requires in_fq(x), in_fq(y), in_fq(d), #[trigger] fmul(x, d) == 1, #[trigger] fmul(d, y) == 1
     ensures x == y
 {
-    assume(false);
+    // x = (x * d) * y  (cancel with y * d == 1)  = 1 * y = y
+    assert(fmul(y, d) == fmul(d, y));
+    lemma_cancel(x, d, y);
+    lemma_fmul_one(y);
+}
+// z * d == c and d * di == 1  ==>  z == c * di
+pub broadcast proof fn lemma_div_c(z: int, d: int, di: int)
+    requires in_fq(z), in_fq(d), in_fq(di), #[trigger] fmul(d, di) == 1
+    ensures z == fmul(#[trigger] fmul(z, d), di)
+{
+    assert(fmul(di, d) == fmul(d, di));
+    lemma_cancel(z, d, di);
 }
 """
